@@ -230,6 +230,7 @@ def guard_rules(repo, rep):
     # the point in the western strip where exact arithmetic puts it in the eastern one; both central meridians are within half a strip
     # width, which is all the property asks)
     common.zone_table_rule(repo, rep)
+    common.antimeridian_symmetry_rule(repo, rep)
     common.validated_copy_rule(repo, rep, [('geodepy.convert', 'geo2grid')])
 
 
